@@ -88,6 +88,34 @@ type Exec struct {
 	tx      uint64 // transcript hash: every observable result of the run
 	stepLog bool
 	inRace  bool
+	// statement points (thorough tier, instrumented copy)
+	pointN     int            // points reached so far by this run
+	pointActs  map[int]string // n-th point -> action
+	pointFired int
+	inPoint    bool
+}
+
+// onPoint is called before every statement of the instrumented library.
+func (e *Exec) onPoint(id int) {
+	n := e.pointN
+	e.pointN++
+	if e.inPoint || e.pointActs == nil {
+		return
+	}
+	if act, ok := e.pointActs[n]; ok {
+		e.inPoint = true
+		switch act {
+		case "gc2":
+			runtime.GC()
+			runtime.GC()
+			e.envChurn()
+		case "gc1":
+			runtime.GC()
+		}
+		e.pointFired++
+		e.st.Events["point_"+act]++
+		e.inPoint = false
+	}
 }
 
 func (e *Exec) note(xs ...uint64) {
@@ -267,8 +295,15 @@ func (e *Exec) envEvent(op string) {
 		runtime.GC()
 		runtime.GC()
 	case "churn":
-		// allocate-and-drop garbage in the node and leaf size classes so freed
-		// slots are handed out again with different contents
+		e.envChurn()
+	}
+	e.st.Events[op]++
+}
+
+// envChurn: allocate-and-drop garbage in the node and leaf size classes so
+// freed slots are handed out again with different contents.
+func (e *Exec) envChurn() {
+	{
 		e.garbage = e.garbage[:0]
 		for _, sz := range []int{24, 32, 48, 96, 288, 1152, 4864} {
 			for i := 0; i < 24; i++ {
@@ -281,7 +316,6 @@ func (e *Exec) envEvent(op string) {
 		}
 		e.garbage = e.garbage[:0]
 	}
-	e.st.Events[op]++
 }
 
 // Run executes the whole trace. It returns the first violation, or nil.
@@ -297,6 +331,14 @@ func (e *Exec) Run() (v *Violation) {
 	// every run starts from an empty node pool, whatever ran before in this process
 	runtime.GC()
 	runtime.GC()
+	if pointsAvailable {
+		e.pointActs = map[int]string{}
+		for _, p := range e.tr.Points {
+			e.pointActs[p.Nth] = p.Act
+		}
+		setPointHook(e.onPoint)
+		defer setPointHook(nil)
+	}
 	for i := range e.tr.Steps {
 		s := &e.tr.Steps[i]
 		e.st.Steps++
